@@ -80,3 +80,27 @@ def facts(fn, keep=()):
                         ren[e.id] = f'_v{len(ren) + 1}'
             out.append(('store', sub(t), val, guards(s)))
     return out
+
+
+def inline_block(stmts):
+    """Straight-line block: names assigned once in the block are substituted into the later statements of the block.
+    Returns the remaining statements (stores / augmented assignments / returns / expression calls) as text."""
+    env = {}
+    count = {}
+    for s in stmts:
+        if isinstance(s, ast.Assign) and len(s.targets) == 1 and isinstance(s.targets[0], ast.Name):
+            count[s.targets[0].id] = count.get(s.targets[0].id, 0) + 1
+
+    class Sub(ast.NodeTransformer):
+        def visit_Name(self, n):
+            if isinstance(n.ctx, ast.Load) and n.id in env:
+                return copy.deepcopy(env[n.id])
+            return n
+
+    out = []
+    for s in stmts:
+        if isinstance(s, ast.Assign) and len(s.targets) == 1 and isinstance(s.targets[0], ast.Name) and count[s.targets[0].id] == 1:
+            env[s.targets[0].id] = Sub().visit(copy.deepcopy(s.value))
+            continue
+        out.append(ast.unparse(Sub().visit(copy.deepcopy(s))))
+    return out
